@@ -3,9 +3,10 @@ import re
 from vlib import core, drivers
 
 PROP = 'C06'
-MODULES = ['PistacheModel.Props.C06']
+MODULES = ['PistacheModel.Props.C06', 'PistacheModel.Props.C06Cross']
 THEOREMS = ['Pistache.WriteQueue.Props.' + t for t in ('inv_run', 'no_loss_no_dup_no_reorder', 'drained_complete', 'promise_values', 'promise_order',
-                                                          'settled_at_most_once', 'acc_run', 'fulfilled_only_after_accepted', 'drains')]
+                                                          'settled_at_most_once', 'acc_run', 'fulfilled_only_after_accepted', 'drains')] + \
+           ['Pistache.WriteQueue.Cross.' + t for t in ('cross_thread_writes', 'cross_thread_nothing_left_behind')]
 
 SIZES = [0, 1, 2, 7, 100, 511, 512, 513, 4096, 5000, 65536, 70000]
 
